@@ -861,8 +861,8 @@ class WorkflowConductor(object):
             task_state_entry = self.add_task_state(
                 task_id,
                 staged_task["route"],
-                in_ctx_idxs=staged_task["ctxs"]["in"],
-                prev=staged_task["prev"],
+                in_ctx_idxs=json_util.deepcopy(staged_task["ctxs"]["in"]),
+                prev=json_util.deepcopy(staged_task["prev"]),
             )
 
         # Identify the index for the task state object for later use.
@@ -881,8 +881,8 @@ class WorkflowConductor(object):
             task_state_entry = self.add_task_state(
                 task_id,
                 staged_task["route"],
-                in_ctx_idxs=staged_task["ctxs"]["in"],
-                prev=staged_task["prev"],
+                in_ctx_idxs=json_util.deepcopy(staged_task["ctxs"]["in"]),
+                prev=json_util.deepcopy(staged_task["prev"]),
             )
 
             # Update the index value since a new entry is created.
@@ -920,9 +920,9 @@ class WorkflowConductor(object):
             self.workflow_state.add_staged_task(
                 task_id,
                 route,
-                ctxs=task_state_entry["ctxs"]["in"],
-                prev=task_state_entry["prev"],
-                retry=task_state_entry["retry"],
+                ctxs=json_util.deepcopy(task_state_entry["ctxs"]["in"]),
+                prev=json_util.deepcopy(task_state_entry["prev"]),
+                retry=json_util.deepcopy(task_state_entry["retry"]),
                 ready=True,
             )
 
